@@ -139,6 +139,33 @@ def run(chk):
     if chk.tier == 'quick' and len(mc) > 6000: chk.rng.shuffle(mc); mc = mc[:6000]
     chk.bounded('granular markings addressing every path of valid objects', mc, check_marking, classify=lambda c: (c[1].split(':')[2], c[3]), bound='every path (property, list index, nested key, embedded-object property) of the minimal and all-optional form of every SDO/SRO')
 
+    # ---- observed-data containers whose members reference each other (forward and backward, as in the specification's own examples)
+    def container_cases():
+        members = {
+            'email forward': {'0': {'type': 'email-message', 'is_multipart': False, 'from_ref': '1', 'to_refs': ['2', '1'], 'subject': 's'},
+                              '1': {'type': 'email-addr', 'value': 'a@example.com'}, '2': {'type': 'email-addr', 'value': 'b@example.com', 'belongs_to_ref': '3'},
+                              '3': {'type': 'user-account', 'user_id': 'u'}},
+            'email backward': {'0': {'type': 'email-addr', 'value': 'a@example.com'}, '1': {'type': 'email-message', 'is_multipart': False, 'from_ref': '0'}},
+            'network traffic forward': {'0': {'type': 'network-traffic', 'src_ref': '1', 'dst_ref': '2', 'protocols': ['tcp']}, '1': {'type': 'ipv4-addr', 'value': '1.2.3.4'},
+                                        '2': {'type': 'ipv4-addr', 'value': '5.6.7.8', 'resolves_to_refs': ['3']}, '3': {'type': 'mac-addr', 'value': '00:00:00:00:00:01'}},
+            'file in directory (forward)': {'0': {'type': 'file', 'name': 'f', 'parent_directory_ref': '1'}, '1': {'type': 'directory', 'path': '/tmp', 'contains_refs': ['0']}},
+            'process tree': {'5': {'type': 'process', 'pid': 1, 'child_refs': ['7'], 'binary_ref': '9'}, '7': {'type': 'process', 'pid': 2, 'parent_ref': '5'}, '9': {'type': 'file', 'name': 'b'}},
+        }
+        for name, objs in members.items():
+            yield (name, {'type': 'observed-data', 'id': 'observed-data--' + G.UUID, 'created': G.T1, 'modified': G.T1, 'first_observed': G.T1, 'last_observed': G.T1,
+                          'number_observed': 1, 'objects': objs})
+
+    def check_container(case):
+        name, inp = case
+        for fname, x in (('bare', inp), ('in a bundle', {'type': 'bundle', 'id': 'bundle--' + G.UUID, 'spec_version': '2.0', 'objects': [inp]})):
+            try: o = stix2.parse(copy.deepcopy(x), allow_custom=False)
+            except Exception as ex:
+                return (f'reject#observed-data container:{name}', f'observed-data container "{name}" ({fname}): valid input rejected: {type(ex).__name__}: {str(ex)[:160]}', {'input': x})
+            out = json.loads(o.serialize(include_optional_defaults=True))
+            if not same_value(x, out): return (f'preserve#observed-data container:{name}', f'observed-data container "{name}" ({fname}) not preserved', {'input': x, 'output': out})
+    chk.bounded('STIX 2.0 observed-data containers with forward and backward member references', list(container_cases()), check_container, classify=lambda c: c[0],
+                bound='5 containers after the specification\'s examples (e-mail, network traffic, directory, process tree), bare and in a bundle')
+
     # ---- falsy values and the known finding
     for d, what in ((dict(type='malware', spec_version='2.1', id='malware--' + G.UUID, created=G.T1, modified=G.T1, is_family=False, name=''), 'false / empty-string values'),
                     (dict(type='location', spec_version='2.1', id='location--' + G.UUID, created=G.T1, modified=G.T1, latitude=0, longitude=0.0), 'zero coordinates'),
